@@ -347,6 +347,10 @@ func (st *runState) finish(ri *simcheck.RunInfo, sim *simrt.Sim, t0 time.Time, t
 	if sim.Livelock != "" {
 		add("C12", "livelock", "livelock: "+trimNum(sim.Livelock), sim.Livelock)
 	}
+	for _, mr := range sim.MapRaces {
+		// two goroutines inside one Go map at the same instant abort the process ("concurrent map read and map write")
+		add("C12", "unguarded-shared-map", "shared map accessed without its lock: "+trimNum(mr), mr+". requests: "+fmt.Sprint(st.paths()))
+	}
 	crashed := len(sim.Crashes) > 0 || sim.Livelock != ""
 	faulty := false
 	var reqLines, sqls []string
